@@ -45,6 +45,8 @@ def gen_case(rng, kinds, max_depth=2, max_len=3, cap=40, opaque=False, ep=None, 
         nx = rng.randint(1, 3)
         nu = rng.choice([0, 1, 1, 2])
         spec = pipes.gen_spec(rng, kinds, nx, nu, max_depth=max_depth, max_len=max_len, cap=cap)
+        if rng.random() < 0.03:
+            spec = {'k': 'pipe', 'ss': []}       # a KoopmanPipeline without lifting functions: the identity lifting
         deg = degree(spec)
         hi = min(12, int(2 ** (50.0 / deg)))
         if hi < 3:
@@ -73,6 +75,29 @@ def gen_case(rng, kinds, max_depth=2, max_len=3, cap=40, opaque=False, ep=None, 
         form = pick_form(rng, integral=integral, small=(not opaque) and exact_kinds and hi ** deg < 2 ** 22)
         return {'spec': spec, 'nx': nx, 'nu': nu, 'ep': epf, 'rows': rows, 'min_len': m, 'form': form, 'degenerate': degenerate}
     raise RuntimeError('generator could not produce a case')
+
+
+def many_episode_cases(rng, specs=None):
+    """SIZE forms of valid data: many episodes (beyond any small-count fast path: 17, 24, 40), labels with gaps that do not
+    start at zero, unequal lengths; stored as ascending contiguous blocks or as shuffled blocks"""
+    specs = specs or [
+        {'k': 'delay', 'dx': 1, 'du': 1},
+        {'k': 'pipe', 'ss': [{'k': 'poly', 'order': 2, 'io': False}, {'k': 'delay', 'dx': 1, 'du': 0}]},
+        {'k': 'split', 'a': [{'k': 'delay', 'dx': 2, 'du': 0}], 'b': [{'k': 'delay', 'dx': 0, 'du': 1}]},
+        {'k': 'poly', 'order': 2, 'io': False},
+    ]
+    for n_eps in (17, 24, 40):
+        spec = rng.choice(specs)
+        nx, nu = 2, 1
+        m = pipes.loss(spec) + 1
+        labels = sorted(rng.sample(range(1 if rng.random() < 0.7 else 0, 3 * n_eps), n_eps))
+        blocks = [(l, [[l] + [round(rng.uniform(-2, 2), 3) for _ in range(nx + nu)] for _ in range(m + rng.randint(1, 3))])
+                  for l in labels]
+        if rng.random() < 0.4:
+            rng.shuffle(blocks)
+        rows = [r for _, b in blocks for r in b]
+        yield {'spec': spec, 'nx': nx, 'nu': nu, 'ep': True, 'rows': rows, 'min_len': m, 'form': 'c', 'degenerate': False,
+               'size_form': f'{n_eps} episodes'}
 
 
 FORMS = ('c', 'fortran', 'strided', 'readonly', 'int64', 'int32', 'float32')
